@@ -1,7 +1,8 @@
-(** C17 - vnclog records every input event once, in order (statements grow). *)
+(** C17 - vnclog records every input event once, in order, regardless of chunking. *)
 From Coq Require Import ZArith List Bool String.
 Local Open Scope string_scope.
-From VD Require Import Base.Bytes Base.Text Model.Shlex Model.Recorder Proofs.RecorderP.
+From VD Require Import Base.Bytes Base.Text Model.Shlex Model.Recorder Model.Replay.
+From VD Require Import Proofs.RecorderP Proofs.ParserP Proofs.SessionP.
 Import ListNotations.
 Local Open Scope list_scope.
 Open Scope Z_scope.
@@ -19,3 +20,43 @@ Theorem C17_key_entry : forall s now down key rest name,
         (mk_rstate rest HProtocol 1 (r_pwreq s) (r_mouse s) now).
 Proof. exact key_entry. Qed.
 Print Assumptions C17_key_entry.
+
+(** Likewise a PointerEvent: one entry (pause, move if the position changed, a click per set button). *)
+Theorem C17_pointer_entry : forall s now mask x y rest,
+  r_handler s = HProtocol ->
+  0 <= mask <= 255 -> 0 <= x < 65536 -> 0 <= y < 65536 ->
+  r_buf s = pointer_event_bytes mask x y ++ rest ->
+  handle s now =
+    let '(line, s2) := record_pointer (mk_rstate rest HProtocol 1 (r_pwreq s) (r_mouse s) (r_last s)) now x y mask in
+    HOk [RRecord line] s2.
+Proof. exact pointer_entry. Qed.
+Print Assumptions C17_pointer_entry.
+
+(** Chunk invariance of the viewer-side parser, for EVERY parser state, EVERY byte stream (valid or
+    not) and every split: feeding [a] then [b] is feeding [a ++ b] - same recorder writes in the same
+    order, same final state, same failure if a handler raises. *)
+Theorem C17_split_invariance : forall s now a b es s1,
+  need_ok s -> rfeed s now a = ROk es s1 ->
+  rfeed s now (a ++ b) = prepend es (rfeed s1 now b).
+Proof. exact rfeed_app. Qed.
+Print Assumptions C17_split_invariance.
+
+(** ... hence for every list of chunks, i.e. all 2^(n-1) ways of cutting an n-byte stream. *)
+Theorem C17_chunking_invariance : forall now chunks s,
+  need_ok s -> quiescent s -> rfeed_chunks s now chunks = rfeed s now (List.concat chunks).
+Proof. exact chunking_invariance. Qed.
+Print Assumptions C17_chunking_invariance.
+
+(** A session of key presses, key releases and pointer events, of any length: exactly one entry per
+    event, in the order sent, nothing else, under every chunking of its bytes; the parser ends at a
+    message boundary with an empty buffer. *)
+Theorem C17_one_entry_per_event : forall now pw mouse last evs chunks,
+  Forall wf_ev evs -> List.concat chunks = List.concat (map wire evs) ->
+  let '(es, m', l') := entries now pw mouse last evs in
+  rfeed_chunks (mk_rstate [] HProtocol 1 pw mouse last) now chunks = ROk es (mk_rstate [] HProtocol 1 pw m' l').
+Proof. exact session_recorded_any_chunking. Qed.
+Print Assumptions C17_one_entry_per_event.
+
+(** non-vacuity: the initial state of a connection satisfies the hypotheses *)
+Example C17_initial_state_ok : need_ok (rstate0 false 0) /\ quiescent (rstate0 false 0).
+Proof. split; [reflexivity|unfold quiescent; cbn; reflexivity]. Qed.
